@@ -68,6 +68,7 @@ class Prop(object):
     shrink_data = True
     case_timeout = 30
     object_histories = True        # see drive.HISTORY
+    reparse_histories = True
 
     def gen(self, rng, ctx):
         raise NotImplementedError
@@ -90,7 +91,8 @@ class Prop(object):
         from rtverif import drive
         if not self.object_histories:
             return self.judge(case)
-        drive.begin_case(random.Random(zlib.crc32(repr(sorted(case.items(), key=lambda kv: kv[0])).encode())))
+        drive.begin_case(random.Random(zlib.crc32(repr(sorted(case.items(), key=lambda kv: kv[0])).encode())),
+                         reparse=self.reparse_histories)
         try:
             v = self.judge(case)
             if v is not None and v.viol and drive.LAST_HISTORY:
